@@ -25,6 +25,7 @@ def run(rep):
     rep.guard(c09.f5, rep, w)     # a fiber killed by a failed run is reported as finished by later snippets
     import c05
     rep.guard(c05.e7, rep, w)     # a failed assignment to an undeclared global defines nothing for later snippets
+    rep.guard(c14.m5, rep, w)     # a failed run must not drop modules from the registry: functions they handed out keep pointing at them
 
 
 def vm_field_writes(w, f):
